@@ -402,6 +402,35 @@ fn family_i(i: u64) -> Case {
     Case { model: SrcModel { vars, cons, sense: Sense::Satisfy, obj: num(0.0) }, signature: format!("inexact-integer-bound a={a} k={k} rel={:?} side={side} coef_right={coef_right} second_row={second_row}", rel) }
 }
 
+/// family IS: strict rows over integral variables with whole coefficients and whole or fractional constants
+const STRICT_COEFS: [(f64, f64); 6] = [(1.0, 0.0), (1.0, 1.0), (2.0, -1.0), (-1.0, 0.0), (3.0, 2.0), (-1.0, -1.0)];
+const STRICT_CONSTS: [f64; 7] = [-0.5, 0.0, 0.5, 1.5, 3.0, 4.0, 4.5];
+fn family_is_size() -> u64 {
+    (STRICT_COEFS.len() * STRICT_CONSTS.len() * 2 * 2 * 3) as u64
+}
+fn family_is(i: u64) -> Case {
+    use crate::exact::Rel;
+    use rooc::BinOp;
+    let mut d = Digits(i);
+    let (a, b) = *d.of(&STRICT_COEFS);
+    let c = *d.of(&STRICT_CONSTS);
+    let rel = *d.of(&[Rel::Le, Rel::Ge]);
+    let side = d.pick(2);
+    let doms = d.pick(3);
+    let mut e = bin(BinOp::Mul, num(a), var("i"));
+    if b != 0.0 {
+        e = bin(BinOp::Add, e, bin(BinOp::Mul, num(b), var("j")));
+    }
+    let (lhs, rhs, rel) = if side == 0 { (e, num(c), rel) } else { (num(c), e, match rel { Rel::Le => Rel::Ge, _ => Rel::Le }) };
+    let vars = match doms {
+        0 => vec![("i".to_string(), Dom::Int(0, 10)), ("j".to_string(), Dom::Int(0, 3))],
+        1 => vec![("i".to_string(), Dom::Int(-3, 3)), ("j".to_string(), Dom::Bool)],
+        _ => vec![("i".to_string(), Dom::Bool), ("j".to_string(), Dom::Int(-2, 2))],
+    };
+    let cons = vec![SrcCons { lhs, rel, rhs, bare: false, name: format!("{}r", SrcModel::STRICT_ROW) }];
+    Case { model: SrcModel { vars, cons, sense: Sense::Satisfy, obj: num(0.0) }, signature: format!("strict-integer-row a={a} b={b} c={c} rel={:?} side={side} doms={doms}", rel) }
+}
+
 pub fn run(mut run: Run) -> ! {
     crate::core::silence_panics();
     run.isolate = true;
@@ -409,7 +438,7 @@ pub fn run(mut run: Run) -> ! {
     let quick = run.quick();
     // quick = chains of <= 2 contexts over reduced menus and of <= 1 context over the full menus; thorough = chains of <= 3 over the full menus
     let depth = if quick { 2 } else { 3 };
-    run.rule = format!("(a) every model of the C01 families A (cores x context chains x relations x constants x declaration forms, depth {depth}), AX (depth <= 1 over a single-point integer range and a finite range of +-1e18), C (bound feeders x consumers), D (blocks over three variables with different ranges, every context) and I (an integer variable bounded through a * i REL fl(a * k) for 16 coefficients that are inexact in binary floating point x k in -4..4 x 3 relations x both sides x coefficient left/right, alone or chained to a second integer) is analysed through the verif_hooks view of the bounds analysis with EVERY step budget 0..K (K = first budget that is not exhausted; each prefix of the propagation work-list is a stopping point), on the raw and on the normalised constraints; every derived variable range, every published domain (integer rounding applied) and the compiled model's domains must contain the exact range of that variable over the source-feasible set, never be NaN, be non-empty unless infeasibility is recorded, and infeasibility may only be recorded for infeasible models; (b) bounds_of for every core-in-context expression over 9 boxes (finite, half-infinite, infinite, degenerate, negative, integer, non-dyadic) must contain the exact range of the piecewise-linear expression; distinct = model / expression text");
+    run.rule = format!("(a) every model of the C01 families A (cores x context chains x relations x constants x declaration forms, depth {depth}), AX (depth <= 1 over a single-point integer range and a finite range of +-1e18), C (bound feeders x consumers), D (blocks over three variables with different ranges, every context) and I (an integer variable bounded through a * i REL fl(a * k) for 16 coefficients that are inexact in binary floating point x k in -4..4 x 3 relations x both sides x coefficient left/right, alone or chained to a second integer) and IS (strict rows a*i + b*j < c or > c over integral variables, whole coefficients, whole and fractional constants, both sides) is analysed through the verif_hooks view of the bounds analysis with EVERY step budget 0..K (K = first budget that is not exhausted; each prefix of the propagation work-list is a stopping point), on the raw and on the normalised constraints; every derived variable range, every published domain (integer rounding applied) and the compiled model's domains must contain the exact range of that variable over the source-feasible set, never be NaN, be non-empty unless infeasibility is recorded, and infeasibility may only be recorded for infeasible models; (b) bounds_of for every core-in-context expression over 9 boxes (finite, half-infinite, infinite, degenerate, negative, integer, non-dyadic) must contain the exact range of the piecewise-linear expression; distinct = model / expression text");
     run.assume("exact source-feasible ranges from the region partition of one continuous variable (other continuous variables on a rational grid: an inner approximation, sound for this one-sided check); tolerance 1e-9 relative, the analyser's own");
     if quick {
         // chains of <= 2 contexts over the reduced menus, chains of <= 1 context over the full menus
@@ -433,6 +462,10 @@ pub fn run(mut run: Run) -> ! {
     let edepth = depth.min(2);
     run.family("D-several-continuous-variables", family_d_size(1), |i, l| {
         let c = family_d(i, 1);
+        check_model(&c, l);
+    });
+    run.family("IS-strict-rows-over-integers", family_is_size(), |i, l| {
+        let c = family_is(i);
         check_model(&c, l);
     });
     run.family("I-inexact-integer-bounds", family_i_size(), |i, l| {
